@@ -1,8 +1,1013 @@
-//! C08 runner (stub). Replace the body; keep the signature `pub fn run(args: &[String])`.
-#[allow(unused_imports)]
-use crate::common::{catch, each_line, opt_i64};
+//! C08/C09: drive the REAL lexer, parser and formatter of /repo.
+//! Input: one JSON object per line `{"op": ..., "src": ...}`; output: one JSON object per line.
+//!
+//! op "decls": parse `src`; for every top-level declaration d: format the one-declaration program
+//!   with the real `Formatter`, re-lex/re-parse the text, compare the span-erased AST with
+//!   `norm(transforms(d))` (documented normalisation + the listed meaning-changing finding classes,
+//!   each applied to a clone of the ORIGINAL AST and reported only when it changed something), format
+//!   the output again (idempotence), check text hygiene.  Also the whole file through `format_source`
+//!   (compositionality with the blank-line policy, idempotence, hygiene, `check_formatted`,
+//!   `format_diff`).
+//! op "tie": `src` is `def f() -> None:` + simple statements; returns the real lexer's tokens of the
+//!   source body, the tokens of the formatted body, and the parsed statements as JSON (core subset).
+use crate::common::{catch, each_line};
+use incan::ast::*;
+use incan::format::{FormatConfig, Formatter};
+use incan::lexer::{self, TokenKind};
+use incan::parser;
+use serde_json::{json, Value};
+use std::collections::BTreeSet;
+
+// ---------------------------------------------------------------------------------- dumps
+
+/// Debug dump with every `Span { start: a, end: b }` replaced by `_`.
+fn erase_spans(s: &str) -> String {
+    let pat = "Span { start: ";
+    let mut out = String::with_capacity(s.len());
+    let mut rest = s;
+    while let Some(i) = rest.find(pat) {
+        out.push_str(&rest[..i]);
+        let tail = &rest[i..];
+        match tail.find(" }") {
+            Some(j) => {
+                out.push('_');
+                rest = &tail[j + 2..];
+            }
+            None => {
+                out.push_str(tail);
+                rest = "";
+            }
+        }
+    }
+    out.push_str(rest);
+    out
+}
+
+fn dump<T: std::fmt::Debug>(t: &T) -> String {
+    erase_spans(&format!("{:?}", t))
+}
+
+/// Constructor names and `field: Some/None` tags appearing in a Debug dump (coverage evidence).
+fn tags(d: &str, acc: &mut BTreeSet<String>) {
+    let b = d.as_bytes();
+    let mut i = 0;
+    let mut in_str = false;
+    while i < b.len() {
+        let c = b[i];
+        if in_str {
+            if c == b'\\' {
+                i += 2;
+                continue;
+            }
+            if c == b'"' {
+                in_str = false;
+            }
+            i += 1;
+            continue;
+        }
+        if c == b'"' {
+            in_str = true;
+            i += 1;
+            continue;
+        }
+        if c.is_ascii_alphabetic() || c == b'_' {
+            let st = i;
+            while i < b.len() && (b[i].is_ascii_alphanumeric() || b[i] == b'_') {
+                i += 1;
+            }
+            let w = &d[st..i];
+            if b[st].is_ascii_uppercase() {
+                acc.insert(w.to_string());
+            } else if i + 6 <= b.len() && &d[i..i + 2] == ": " {
+                if d[i + 2..].starts_with("Some(") {
+                    acc.insert(format!("{}:Some", w));
+                } else if d[i + 2..].starts_with("None") {
+                    acc.insert(format!("{}:None", w));
+                } else if d[i + 2..].starts_with("[]") {
+                    acc.insert(format!("{}:[]", w));
+                } else if d[i + 2..].starts_with("[") {
+                    acc.insert(format!("{}:[..]", w));
+                } else if d[i + 2..].starts_with("true") {
+                    acc.insert(format!("{}:true", w));
+                } else if d[i + 2..].starts_with("false") {
+                    acc.insert(format!("{}:false", w));
+                }
+            }
+            continue;
+        }
+        i += 1;
+    }
+}
+
+// ---------------------------------------------------------------------------------- AST walk
+
+/// Ladder level of an expression's top node (parser/expr.rs): 0 or, 1 and, 2 not, 3 comparison,
+/// 4 range, 5 additive, 6 multiplicative, 7 power, 8 unary, 9 postfix/primary.
+fn lvl(e: &Expr) -> u8 {
+    match e {
+        Expr::Binary(_, op, _) => match op {
+            BinaryOp::Or => 0,
+            BinaryOp::And => 1,
+            BinaryOp::Eq | BinaryOp::NotEq | BinaryOp::Lt | BinaryOp::Gt | BinaryOp::LtEq | BinaryOp::GtEq
+            | BinaryOp::In | BinaryOp::NotIn | BinaryOp::Is => 3,
+            BinaryOp::Add | BinaryOp::Sub => 5,
+            BinaryOp::Mul | BinaryOp::Div | BinaryOp::FloorDiv | BinaryOp::Mod => 6,
+            BinaryOp::Pow => 7,
+        },
+        Expr::Unary(UnaryOp::Not, _) => 2,
+        Expr::Range { .. } => 4,
+        Expr::Unary(UnaryOp::Neg, _) | Expr::Await(_) => 8,
+        // greedy primaries: swallow everything to their right
+        Expr::Yield(Some(_)) | Expr::Closure(..) => 0,
+        _ => 9,
+    }
+}
+
+struct Walk {
+    /// apply the meaning-changing transforms (else only collect)
+    apply: bool,
+    /// ids of transforms that changed something / features found
+    hits: BTreeSet<&'static str>,
+    in_fstring: u32,
+    /// number of match arms with a block body (each prints `pattern => ` + newline)
+    block_arms: u32,
+    /// number of `if` expressions (each prints `cond if ` and stops)
+    if_exprs: u32,
+}
+
+fn float_display_int(f: f64) -> Option<Option<i64>> {
+    let s = f.to_string();
+    if s.contains('.') {
+        None
+    } else {
+        Some(s.parse::<i64>().ok())
+    }
+}
+
+impl Walk {
+    fn lit(&mut self, l: &mut Literal) {
+        if self.in_fstring > 0 {
+            if matches!(l, Literal::String(_) | Literal::Bytes(_)) {
+                self.hits.insert("F:fmt-fstring-escape");
+            }
+        }
+        match l {
+            Literal::Float(f) => match float_display_int(*f) {
+                Some(Some(k)) => {
+                    self.hits.insert("T:fmt-float");
+                    if self.apply {
+                        *l = Literal::Int(k);
+                    }
+                }
+                Some(None) => {
+                    self.hits.insert("F:fmt-float");
+                }
+                None => {}
+            },
+            Literal::Bytes(b) => {
+                if b.iter().any(|c| *c == b'"' || *c == b'\\') {
+                    self.hits.insert("F:fmt-bytes-escape");
+                }
+            }
+            _ => {}
+        }
+    }
+
+    fn ty(&mut self, t: &mut Spanned<Type>) {
+        match &mut t.node {
+            Type::Simple(_) | Type::SelfType => {}
+            Type::Generic(_, args) => args.iter_mut().for_each(|a| self.ty(a)),
+            Type::Function(ps, r) => {
+                ps.iter_mut().for_each(|a| self.ty(a));
+                self.ty(r);
+            }
+            Type::Unit => {
+                self.hits.insert("T:fmt-unit-type");
+                if self.apply {
+                    t.node = Type::Simple("None".to_string());
+                }
+            }
+            Type::Tuple(ts) => {
+                ts.iter_mut().for_each(|a| self.ty(a));
+                self.hits.insert("T:fmt-tuple-type");
+                if self.apply {
+                    let ts = std::mem::take(ts);
+                    t.node = Type::Generic("Tuple".to_string(), ts);
+                }
+            }
+        }
+    }
+
+    fn params(&mut self, ps: &mut Vec<Spanned<Param>>) {
+        for p in ps.iter_mut() {
+            if p.node.is_mut {
+                self.hits.insert("T:fmt-mut-param");
+                if self.apply {
+                    p.node.is_mut = false;
+                }
+            }
+            self.ty(&mut p.node.ty);
+            if let Some(d) = &mut p.node.default {
+                self.expr(d);
+            }
+        }
+    }
+
+    fn args(&mut self, args: &mut Vec<CallArg>) {
+        for a in args.iter_mut() {
+            match a {
+                CallArg::Positional(e) | CallArg::Named(_, e) => self.expr(e),
+            }
+        }
+    }
+
+    /// A `match` (or `if`) expression followed by more text of the same statement: the parser lets the
+    /// line after the arms continue the expression (`match ..` newline arms, then `- 1`), the printer
+    /// then writes the continuation at line start with indentation + " - 1".
+    fn match_operand(&mut self, e: &Spanned<Expr>) {
+        let mut x = &e.node;
+        loop {
+            match x {
+                Expr::Match(..) => {
+                    self.hits.insert("F:fmt-match-operand");
+                    return;
+                }
+                // the printed text of these ends with the text of the sub-expression
+                Expr::Binary(_, _, r) => x = &r.node,
+                Expr::Unary(_, r) | Expr::Await(r) => x = &r.node,
+                Expr::Range { end, .. } => x = &end.node,
+                _ => return,
+            }
+        }
+    }
+
+    fn pattern(&mut self, p: &mut Spanned<Pattern>) {
+        match &mut p.node {
+            Pattern::Wildcard | Pattern::Binding(_) => {}
+            Pattern::Literal(l) => self.lit(l),
+            Pattern::Constructor(name, ps) => {
+                if name.contains("::") {
+                    self.hits.insert("F:fmt-qualified-pattern");
+                } else if ps.is_empty() {
+                    // `Foo()` is printed `Foo`, which re-parses as a binding
+                    self.hits.insert("T:fmt-empty-constructor-pattern");
+                    if self.apply {
+                        p.node = Pattern::Binding(name.clone());
+                        return;
+                    }
+                }
+                ps.iter_mut().for_each(|q| self.pattern(q));
+            }
+            Pattern::Tuple(ps) => ps.iter_mut().for_each(|q| self.pattern(q)),
+        }
+    }
+
+    fn block(&mut self, b: &mut Vec<Spanned<Statement>>) {
+        b.iter_mut().for_each(|s| self.stmt(s));
+    }
+
+    fn expr(&mut self, e: &mut Spanned<Expr>) {
+        if self.in_fstring > 0 {
+            if let Expr::FString(_) = &e.node {
+                self.hits.insert("F:fmt-fstring-escape");
+            }
+        }
+        match &mut e.node {
+            Expr::Ident(_) | Expr::SelfExpr => {}
+            Expr::Literal(l) => self.lit(l),
+            Expr::Binary(l, _, r) => {
+                self.match_operand(l);
+                self.expr(l);
+                self.expr(r);
+            }
+            Expr::Try(x) => {
+                self.match_operand(x);
+                self.expr(x)
+            }
+            Expr::Unary(_, x) | Expr::Await(x) | Expr::Paren(x) => self.expr(x),
+            Expr::Call(f, args) => {
+                self.match_operand(f);
+                self.expr(f);
+                self.args(args);
+            }
+            Expr::Index(b, i) => {
+                self.match_operand(b);
+                self.expr(b);
+                self.expr(i);
+            }
+            Expr::Slice(b, s) => {
+                self.match_operand(b);
+                self.expr(b);
+                if s.end.is_none() && s.step.is_some() {
+                    self.hits.insert("F:colon-colon");
+                }
+                for x in [&mut s.start, &mut s.end, &mut s.step].into_iter().flatten() {
+                    self.expr(x);
+                }
+            }
+            Expr::Field(b, _) => {
+                self.match_operand(b);
+                self.expr(b)
+            }
+            Expr::MethodCall(b, _, args) => {
+                self.match_operand(b);
+                self.expr(b);
+                self.args(args);
+            }
+            Expr::Match(v, arms) => {
+                self.expr(v);
+                for arm in arms.iter_mut() {
+                    self.pattern(&mut arm.node.pattern);
+                    if let Some(g) = &mut arm.node.guard {
+                        self.hits.insert("F:fmt-guard");
+                        self.expr(g);
+                    }
+                    match &mut arm.node.body {
+                        MatchBody::Expr(x) => self.expr(x),
+                        MatchBody::Block(b) => {
+                            self.block_arms += 1;
+                            self.block(b)
+                        }
+                    }
+                }
+            }
+            Expr::If(ie) => {
+                self.hits.insert("F:fmt-if-expr");
+                self.if_exprs += 1;
+                self.expr(&mut ie.condition);
+                self.block(&mut ie.then_body);
+                if let Some(b) = &mut ie.else_body {
+                    self.block(b);
+                }
+            }
+            Expr::ListComp(c) => {
+                self.expr(&mut c.expr);
+                self.expr(&mut c.iter);
+                if let Some(f) = &mut c.filter {
+                    self.expr(f);
+                }
+            }
+            Expr::DictComp(c) => {
+                self.expr(&mut c.key);
+                self.expr(&mut c.value);
+                self.expr(&mut c.iter);
+                if let Some(f) = &mut c.filter {
+                    self.expr(f);
+                }
+            }
+            Expr::Closure(ps, body) => {
+                if !ps.is_empty() {
+                    self.hits.insert("F:fmt-closure");
+                }
+                self.params(ps);
+                self.expr(body);
+            }
+            Expr::Tuple(xs) | Expr::List(xs) | Expr::Set(xs) => xs.iter_mut().for_each(|x| self.expr(x)),
+            Expr::Dict(kvs) => {
+                for (k, v) in kvs.iter_mut() {
+                    self.expr(k);
+                    self.expr(v);
+                }
+            }
+            Expr::Constructor(_, args) => self.args(args),
+            Expr::FString(parts) => {
+                for p in parts.iter_mut() {
+                    match p {
+                        FStringPart::Literal(s) => {
+                            if s.chars().any(|c| matches!(c, '"' | '\\' | '{' | '}' | '\n' | '\r')) {
+                                self.hits.insert("F:fmt-fstring-escape");
+                            }
+                        }
+                        FStringPart::Expr(x) => {
+                            self.in_fstring += 1;
+                            self.expr(x);
+                            self.in_fstring -= 1;
+                        }
+                    }
+                }
+            }
+            Expr::Yield(x) => {
+                if let Some(x) = x {
+                    self.expr(x);
+                }
+            }
+            Expr::Range { start, end, .. } => {
+                self.match_operand(start);
+                self.expr(start);
+                self.expr(end);
+            }
+        }
+    }
+
+    /// `a.f op= rhs` / `a[i] op= rhs` are desugared by the parser into `a.f = a.f op rhs` WITHOUT a
+    /// Paren node around rhs; the printed text re-associates when rhs binds no tighter than op.
+    fn desugared(&mut self, target_is: impl Fn(&Expr) -> bool, value: &Spanned<Expr>) {
+        if let Expr::Binary(l, op, r) = &value.node {
+            let l_op = lvl(&Expr::Binary(l.clone(), *op, r.clone()));
+            if (l_op == 5 || l_op == 6) && l.span == value.span && target_is(&l.node) && lvl(&r.node) <= l_op {
+                self.hits.insert("F:fmt-compound-desugar");
+            }
+        }
+    }
+
+    fn stmt(&mut self, s: &mut Spanned<Statement>) {
+        match &mut s.node {
+            Statement::Assignment(a) => {
+                if let Some(t) = &mut a.ty {
+                    self.ty(t);
+                }
+                self.expr(&mut a.value);
+            }
+            Statement::FieldAssignment(a) => {
+                let (o, f) = (dump(&a.object.node), a.field.clone());
+                self.desugared(
+                    |l| matches!(l, Expr::Field(b, g) if *g == f && dump(&b.node) == o),
+                    &a.value,
+                );
+                self.expr(&mut a.object);
+                self.expr(&mut a.value);
+            }
+            Statement::IndexAssignment(a) => {
+                let (o, ix) = (dump(&a.object.node), dump(&a.index.node));
+                self.desugared(
+                    |l| matches!(l, Expr::Index(b, j) if dump(&b.node) == o && dump(&j.node) == ix),
+                    &a.value,
+                );
+                self.expr(&mut a.object);
+                self.expr(&mut a.index);
+                self.expr(&mut a.value);
+            }
+            Statement::Return(e) => {
+                if let Some(e) = e {
+                    self.expr(e);
+                }
+            }
+            Statement::If(i) => {
+                self.expr(&mut i.condition);
+                self.block(&mut i.then_body);
+                for (c, b) in i.elif_branches.iter_mut() {
+                    self.expr(c);
+                    self.block(b);
+                }
+                if let Some(b) = &mut i.else_body {
+                    self.block(b);
+                }
+            }
+            Statement::While(w) => {
+                self.expr(&mut w.condition);
+                self.block(&mut w.body);
+            }
+            Statement::For(f) => {
+                self.expr(&mut f.iter);
+                self.block(&mut f.body);
+            }
+            Statement::Expr(e) => self.expr(e),
+            Statement::Pass | Statement::Break | Statement::Continue => {}
+            Statement::CompoundAssignment(c) => self.expr(&mut c.value),
+            Statement::TupleUnpack(u) => self.expr(&mut u.value),
+            Statement::TupleAssign(t) => {
+                t.targets.iter_mut().for_each(|x| self.expr(x));
+                self.expr(&mut t.value);
+            }
+            Statement::ChainedAssignment(c) => self.expr(&mut c.value),
+        }
+    }
+
+    fn decorators(&mut self, ds: &mut Vec<Spanned<Decorator>>) {
+        for d in ds.iter_mut() {
+            for a in d.node.args.iter_mut() {
+                match a {
+                    DecoratorArg::Positional(e) => self.expr(e),
+                    DecoratorArg::Named(_, DecoratorArgValue::Expr(e)) => self.expr(e),
+                    DecoratorArg::Named(_, DecoratorArgValue::Type(t)) => {
+                        self.hits.insert("M:fmt-decorator-type-arg");
+                        self.ty(t);
+                    }
+                }
+            }
+        }
+    }
+
+    fn method(&mut self, m: &mut Spanned<MethodDecl>) {
+        self.decorators(&mut m.node.decorators);
+        self.params(&mut m.node.params);
+        self.ty(&mut m.node.return_type);
+        if let Some(b) = &mut m.node.body {
+            self.block(b);
+        }
+    }
+
+    fn fields(&mut self, fs: &mut Vec<Spanned<FieldDecl>>) {
+        for f in fs.iter_mut() {
+            self.ty(&mut f.node.ty);
+            if let Some(d) = &mut f.node.default {
+                self.expr(d);
+            }
+        }
+    }
+
+    fn decl(&mut self, d: &mut Declaration) {
+        match d {
+            Declaration::Import(_) => {}
+            Declaration::Const(c) => {
+                if let Some(t) = &mut c.ty {
+                    self.ty(t);
+                }
+                self.expr(&mut c.value);
+            }
+            Declaration::Model(m) => {
+                self.decorators(&mut m.decorators);
+                self.fields(&mut m.fields);
+                m.methods.iter_mut().for_each(|x| self.method(x));
+            }
+            Declaration::Class(m) => {
+                self.decorators(&mut m.decorators);
+                self.fields(&mut m.fields);
+                m.methods.iter_mut().for_each(|x| self.method(x));
+            }
+            Declaration::Trait(t) => {
+                self.decorators(&mut t.decorators);
+                t.methods.iter_mut().for_each(|x| self.method(x));
+            }
+            Declaration::Newtype(n) => {
+                self.ty(&mut n.underlying);
+                if !n.methods.is_empty() {
+                    self.hits.insert("F:fmt-newtype-methods");
+                }
+                n.methods.iter_mut().for_each(|x| self.method(x));
+            }
+            Declaration::Enum(e) => {
+                for v in e.variants.iter_mut() {
+                    v.node.fields.iter_mut().for_each(|t| self.ty(t));
+                }
+            }
+            Declaration::Function(f) => {
+                self.decorators(&mut f.decorators);
+                if !f.type_params.is_empty() {
+                    self.hits.insert("T:fmt-type-params");
+                    if self.apply {
+                        f.type_params.clear();
+                    }
+                }
+                self.params(&mut f.params);
+                self.ty(&mut f.return_type);
+                self.block(&mut f.body);
+            }
+            Declaration::Docstring(s) => {
+                if s.contains('\\') || s.trim().contains("\"\"\"") || s.trim().ends_with('"') || s.trim().starts_with('"') {
+                    self.hits.insert("F:fmt-docstring-escape");
+                }
+                if s.trim() != s.as_str() {
+                    self.hits.insert("N:docstring-trim");
+                    if self.apply {
+                        *s = s.trim().to_string();
+                    }
+                }
+            }
+        }
+    }
+}
+
+/// Replace every named decorator argument's value by a placeholder (applied to BOTH sides when
+/// the declaration carries the `name: Type` decorator form, which is printed `name=Type`).
+fn mask_decorators(d: &mut Declaration) {
+    fn m(ds: &mut Vec<Spanned<Decorator>>) {
+        for d in ds.iter_mut() {
+            for a in d.node.args.iter_mut() {
+                if let DecoratorArg::Named(_, v) = a {
+                    *v = DecoratorArgValue::Expr(Spanned::new(Expr::Ident("<named-arg>".into()), Span::default()));
+                }
+            }
+        }
+    }
+    fn mm(ms: &mut Vec<Spanned<MethodDecl>>) {
+        ms.iter_mut().for_each(|x| m(&mut x.node.decorators));
+    }
+    match d {
+        Declaration::Model(x) => {
+            m(&mut x.decorators);
+            mm(&mut x.methods)
+        }
+        Declaration::Class(x) => {
+            m(&mut x.decorators);
+            mm(&mut x.methods)
+        }
+        Declaration::Trait(x) => {
+            m(&mut x.decorators);
+            mm(&mut x.methods)
+        }
+        Declaration::Newtype(x) => mm(&mut x.methods),
+        Declaration::Function(x) => m(&mut x.decorators),
+        _ => {}
+    }
+}
+
+// ---------------------------------------------------------------------------------- helpers
+
+fn parse_src(src: &str) -> Result<Program, String> {
+    let toks = lexer::lex(src).map_err(|e| format!("lex: {}", e.iter().map(|x| x.message.clone()).collect::<Vec<_>>().join("; ")))?;
+    parser::parse(&toks).map_err(|e| format!("parse: {}", e.iter().map(|x| x.message.clone()).collect::<Vec<_>>().join("; ")))
+}
+
+fn fmt_prog(p: &Program) -> String {
+    Formatter::new(FormatConfig::default()).format(p)
+}
+
+/// Hygiene of a formatted text: (#final newlines, tabs outside string tokens, lines with trailing
+/// blanks outside string tokens). String tokens are located with the real lexer.
+fn hygiene(text: &str) -> Value {
+    let finals = text.len() - text.trim_end_matches('\n').len();
+    let mut in_string = vec![false; text.len() + 1];
+    let lexed = lexer::lex(text);
+    if let Ok(toks) = &lexed {
+        for t in toks {
+            if matches!(t.kind, TokenKind::String(_) | TokenKind::Bytes(_) | TokenKind::FString(_)) {
+                for i in t.span.start..t.span.end.min(text.len()) {
+                    in_string[i] = true;
+                }
+            }
+        }
+    }
+    let mut tabs = 0;
+    let mut trailing = 0;
+    let mut first_bad: Option<String> = None;
+    let mut off = 0;
+    for line in text.split('\n') {
+        for (i, c) in line.char_indices() {
+            if c == '\t' && !in_string[off + i] {
+                tabs += 1;
+                first_bad.get_or_insert_with(|| line.to_string());
+            }
+        }
+        if let Some(c) = line.chars().last() {
+            let pos = off + line.len() - c.len_utf8();
+            if (c == ' ' || c == '\t' || c == '\r') && !in_string[pos] {
+                trailing += 1;
+                first_bad.get_or_insert_with(|| line.to_string());
+            }
+        }
+        off += line.len() + 1;
+    }
+    json!({"final_newlines": finals, "tabs": tabs, "trailing": trailing, "lexed": lexed.is_ok(), "bad_line": first_bad})
+}
+
+fn first_diff(a: &str, b: &str) -> Value {
+    let n = a.bytes().zip(b.bytes()).take_while(|(x, y)| x == y).count();
+    let lo = |s: &str| {
+        let mut st = n.saturating_sub(60);
+        while !s.is_char_boundary(st) {
+            st -= 1;
+        }
+        let mut en = (n + 100).min(s.len());
+        while !s.is_char_boundary(en) {
+            en += 1;
+        }
+        s[st..en].to_string()
+    };
+    json!([lo(a), lo(b)])
+}
+
+/// How many extra newlines the printer leaves at the very end of a declaration: a `match` whose arms
+/// end the declaration is followed by the newline of the statement that contains it, once per nesting.
+fn tail_expr(e: &Expr) -> u32 {
+    match e {
+        Expr::Match(_, arms) => {
+            1 + match arms.last().map(|a| &a.node.body) {
+                Some(MatchBody::Block(b)) => trail(b),
+                Some(MatchBody::Expr(x)) => tail_expr(&x.node),
+                None => 0,
+            }
+        }
+        _ => 0,
+    }
+}
+
+fn trail(b: &[Spanned<Statement>]) -> u32 {
+    match b.last().map(|s| &s.node) {
+        Some(Statement::Expr(e)) | Some(Statement::Return(Some(e))) => tail_expr(&e.node),
+        Some(Statement::Assignment(a)) => tail_expr(&a.value.node),
+        Some(Statement::If(i)) => {
+            if let Some(eb) = &i.else_body {
+                trail(eb)
+            } else if let Some((_, eb)) = i.elif_branches.last() {
+                trail(eb)
+            } else {
+                trail(&i.then_body)
+            }
+        }
+        Some(Statement::While(w)) => trail(&w.body),
+        Some(Statement::For(f)) => trail(&f.body),
+        _ => 0,
+    }
+}
+
+fn decl_trail(d: &Declaration) -> u32 {
+    let m = |ms: &Vec<Spanned<MethodDecl>>| ms.last().and_then(|x| x.node.body.as_ref()).map(|b| trail(b)).unwrap_or(0);
+    match d {
+        Declaration::Function(f) => trail(&f.body),
+        Declaration::Model(x) => m(&x.methods),
+        Declaration::Class(x) => m(&x.methods),
+        Declaration::Trait(x) => m(&x.methods),
+        Declaration::Newtype(x) => m(&x.methods),
+        Declaration::Const(c) => tail_expr(&c.value.node),
+        _ => 0,
+    }
+}
+
+fn decl_kind(d: &Declaration) -> &'static str {
+    match d {
+        Declaration::Import(_) => "Import",
+        Declaration::Const(_) => "Const",
+        Declaration::Model(_) => "Model",
+        Declaration::Class(_) => "Class",
+        Declaration::Trait(_) => "Trait",
+        Declaration::Newtype(_) => "Newtype",
+        Declaration::Enum(_) => "Enum",
+        Declaration::Function(_) => "Function",
+        Declaration::Docstring(_) => "Docstring",
+    }
+}
+
+fn check_decl(d: &Spanned<Declaration>, want_text: bool) -> Value {
+    let one = Program { declarations: vec![d.clone()] };
+    let text = fmt_prog(&one);
+    // features / transforms of the ORIGINAL declaration
+    let mut w = Walk { apply: true, hits: BTreeSet::new(), in_fstring: 0, block_arms: 0, if_exprs: 0 };
+    let mut expect = d.node.clone();
+    w.decl(&mut expect);
+    let mask = w.hits.contains("M:fmt-decorator-type-arg");
+    if mask {
+        mask_decorators(&mut expect);
+    }
+    let raw = dump(&d.node);
+    let exp = dump(&expect);
+    let mut out = json!({"kind": decl_kind(&d.node), "classes": w.hits.iter().collect::<Vec<_>>(), "hyg": hygiene(&text),
+                         "block_arms": w.block_arms, "if_exprs": w.if_exprs, "trail": decl_trail(&d.node)});
+    if want_text {
+        out["text"] = json!(text);
+    }
+    match parse_src(&text) {
+        Err(e) => {
+            out["reparse"] = json!(e);
+            out["text"] = json!(text);
+        }
+        Ok(p2) => {
+            out["reparse"] = json!("ok");
+            if p2.declarations.len() != 1 {
+                out["equal"] = json!(false);
+                out["equal_raw"] = json!(false);
+                out["diff"] = json!([format!("1 declaration"), format!("{} declarations", p2.declarations.len())]);
+                out["text"] = json!(text);
+            } else {
+                let mut got = p2.declarations[0].node.clone();
+                let got_raw = dump(&got);
+                if let Declaration::Docstring(s) = &mut got {
+                    // documented normalisation: docstring whitespace is trimmed (multi-line form re-parses with
+                    // the newlines that follow/precede the quotes)
+                    *s = s.trim().to_string();
+                }
+                if mask {
+                    mask_decorators(&mut got);
+                }
+                let got_d = dump(&got);
+                out["equal_raw"] = json!(got_raw == raw);
+                out["equal"] = json!(got_d == exp);
+                if got_d != exp {
+                    out["diff"] = first_diff(&exp, &got_d);
+                    out["text"] = json!(text);
+                }
+            }
+            let text2 = fmt_prog(&p2);
+            out["idem"] = json!(text2 == text);
+            if text2 != text {
+                out["idem_diff"] = first_diff(&text, &text2);
+            }
+        }
+    }
+    out
+}
+
+fn op_decls(src: &str, want_text: bool) -> Value {
+    let prog = match parse_src(src) {
+        Ok(p) => p,
+        Err(e) => return json!({"parse": e}),
+    };
+    let mut tagset = BTreeSet::new();
+    tags(&dump(&prog), &mut tagset);
+    let decls: Vec<Value> = prog.declarations.iter().map(|d| check_decl(d, want_text)).collect();
+    // whole file through the public entry points
+    let whole = incan::format_source(src);
+    let mut wj = json!({});
+    match whole {
+        Err(e) => wj["fmt"] = json!(format!("error: {}", e)),
+        Ok(text) => {
+            // compositionality: format_program = declarations joined by the blank-line policy + "\n"
+            let mut joined = String::new();
+            let mut prev_doc = false;
+            for (i, d) in prog.declarations.iter().enumerate() {
+                if i > 0 {
+                    joined.push_str(if prev_doc { "\n" } else { "\n\n" });
+                }
+                prev_doc = matches!(d.node, Declaration::Docstring(_));
+                let t = fmt_prog(&Program { declarations: vec![d.clone()] });
+                joined.push_str(t.strip_suffix('\n').unwrap_or(&t));
+            }
+            joined.push('\n');
+            wj["compositional"] = json!(joined == text);
+            wj["hyg"] = hygiene(&text);
+            wj["check_formatted_src"] = json!(incan::check_formatted(src).ok());
+            wj["src_eq_fmt"] = json!(src == text);
+            wj["diff_is_none"] = json!(incan::format_diff(src).ok().map(|d| d.is_none()));
+            match incan::format_source(&text) {
+                Ok(t2) => {
+                    wj["idem"] = json!(t2 == text);
+                    wj["check_formatted_out"] = json!(incan::check_formatted(&text).ok());
+                    if t2 != text {
+                        wj["idem_diff"] = first_diff(&text, &t2);
+                    }
+                }
+                Err(e) => wj["refmt"] = json!(format!("error: {}", e).chars().take(300).collect::<String>()),
+            }
+            if want_text {
+                wj["text"] = json!(text);
+            }
+        }
+    }
+    // the whole formatted file re-parses into the same declarations as the one-declaration programs do
+    if let Some(text) = incan::format_source(src).ok() {
+        let per: Option<Vec<String>> = prog
+            .declarations
+            .iter()
+            .map(|d| parse_src(&fmt_prog(&Program { declarations: vec![d.clone()] })).ok().filter(|p| p.declarations.len() == 1).map(|p| dump(&p.declarations[0].node)))
+            .collect();
+        if let Some(per) = per {
+            wj["reparse_consistent"] = match parse_src(&text) {
+                Ok(p) => json!(p.declarations.iter().map(|d| dump(&d.node)).collect::<Vec<_>>() == per),
+                Err(e) => json!(e),
+            };
+        }
+    }
+    json!({"parse": "ok", "n": prog.declarations.len(), "decls": decls, "whole": wj, "tags": tagset.iter().collect::<Vec<_>>()})
+}
+
+// ---------------------------------------------------------------------------------- tie
+
+fn tok_json(k: &TokenKind) -> Value {
+    match k {
+        TokenKind::Keyword(id) => json!(["kw", format!("{:?}", id)]),
+        TokenKind::Operator(id) => json!(["op", format!("{:?}", id)]),
+        TokenKind::Punctuation(id) => json!(["pu", format!("{:?}", id)]),
+        TokenKind::Ident(s) => json!(["id", s]),
+        TokenKind::Int(n) => json!(["int", n.to_string()]),
+        TokenKind::Float(f) => json!(["float", f.to_bits().to_string(), float_display_int(*f).map(|o| o.map(|k| k.to_string()))]),
+        TokenKind::String(s) => json!(["str", s]),
+        TokenKind::Bytes(b) => json!(["bytes", b]),
+        TokenKind::FString(_) => json!(["other", "FString"]),
+        TokenKind::Newline => json!(["nl"]),
+        TokenKind::Indent => json!(["other", "Indent"]),
+        TokenKind::Dedent => json!(["other", "Dedent"]),
+        TokenKind::Ellipsis => json!(["other", "Ellipsis"]),
+        TokenKind::Eof => json!(["other", "Eof"]),
+    }
+}
+
+/// tokens strictly between the first Indent and its matching Dedent
+fn body_tokens(src: &str) -> Result<Vec<Value>, String> {
+    let toks = lexer::lex(src).map_err(|e| format!("lex: {}", e[0].message))?;
+    let mut out = Vec::new();
+    let mut depth = 0;
+    for t in &toks {
+        match t.kind {
+            TokenKind::Indent => {
+                depth += 1;
+                if depth == 1 {
+                    continue;
+                }
+            }
+            TokenKind::Dedent => {
+                depth -= 1;
+                if depth == 0 {
+                    break;
+                }
+            }
+            _ => {}
+        }
+        if depth >= 1 {
+            out.push(tok_json(&t.kind));
+        }
+    }
+    Ok(out)
+}
+
+fn lit_json(l: &Literal) -> Value {
+    match l {
+        Literal::Int(n) => json!(["Int", n.to_string()]),
+        Literal::Float(f) => json!(["Float", f.to_bits().to_string(), float_display_int(*f).map(|o| o.map(|k| k.to_string()))]),
+        Literal::String(s) => json!(["Str", s]),
+        Literal::Bytes(b) => json!(["Bytes", b]),
+        Literal::Bool(b) => json!(["Bool", b]),
+        Literal::None => json!(["None"]),
+    }
+}
+
+fn args_json(a: &[CallArg]) -> Value {
+    Value::Array(
+        a.iter()
+            .map(|x| match x {
+                CallArg::Positional(e) => json!([Value::Null, expr_json(&e.node)]),
+                CallArg::Named(n, e) => json!([n, expr_json(&e.node)]),
+            })
+            .collect(),
+    )
+}
+
+fn oe(o: &Option<Box<Spanned<Expr>>>) -> Value {
+    match o {
+        Some(e) => expr_json(&e.node),
+        None => Value::Null,
+    }
+}
+
+fn expr_json(e: &Expr) -> Value {
+    let l = |xs: &Vec<Spanned<Expr>>| Value::Array(xs.iter().map(|x| expr_json(&x.node)).collect());
+    match e {
+        Expr::Ident(n) => json!(["Ident", n]),
+        Expr::Literal(x) => json!(["Lit", lit_json(x)]),
+        Expr::SelfExpr => json!(["Self"]),
+        Expr::Binary(a, op, b) => json!(["Binary", expr_json(&a.node), format!("{:?}", op), expr_json(&b.node)]),
+        Expr::Unary(op, a) => json!(["Unary", format!("{:?}", op), expr_json(&a.node)]),
+        Expr::Call(f, a) => json!(["Call", expr_json(&f.node), args_json(a)]),
+        Expr::Index(b, i) => json!(["Index", expr_json(&b.node), expr_json(&i.node)]),
+        Expr::Slice(b, s) => json!(["Slice", expr_json(&b.node), oe(&s.start), oe(&s.end), oe(&s.step)]),
+        Expr::Field(b, f) => json!(["Field", expr_json(&b.node), f]),
+        Expr::MethodCall(b, m, a) => json!(["Method", expr_json(&b.node), m, args_json(a)]),
+        Expr::Await(a) => json!(["Await", expr_json(&a.node)]),
+        Expr::Try(a) => json!(["Try", expr_json(&a.node)]),
+        Expr::Tuple(xs) => json!(["Tuple", l(xs)]),
+        Expr::List(xs) => json!(["List", l(xs)]),
+        Expr::Set(xs) => json!(["Set", l(xs)]),
+        Expr::Dict(kvs) => json!(["Dict", Value::Array(kvs.iter().map(|(k, v)| json!([expr_json(&k.node), expr_json(&v.node)])).collect())]),
+        Expr::Paren(a) => json!(["Paren", expr_json(&a.node)]),
+        Expr::Range { start, end, inclusive } => json!(["Range", expr_json(&start.node), expr_json(&end.node), inclusive]),
+        Expr::Closure(ps, b) => json!(["Closure", Value::Array(ps.iter().map(|p| json!(p.node.name)).collect()), expr_json(&b.node)]),
+        other => json!(["Unsupported", format!("{:?}", std::mem::discriminant(other))]),
+    }
+}
+
+fn binding_json(b: &BindingKind) -> Value {
+    json!(format!("{:?}", b))
+}
+
+fn stmt_json(s: &Statement) -> Value {
+    match s {
+        Statement::Expr(e) => json!(["Expr", expr_json(&e.node)]),
+        Statement::Assignment(a) => match &a.ty {
+            None => json!(["Assign", binding_json(&a.binding), a.name, expr_json(&a.value.node)]),
+            Some(_) => json!(["Unsupported", "typed assignment"]),
+        },
+        Statement::FieldAssignment(a) => json!(["FieldAssign", expr_json(&a.object.node), a.field, expr_json(&a.value.node)]),
+        Statement::IndexAssignment(a) => json!(["IndexAssign", expr_json(&a.object.node), expr_json(&a.index.node), expr_json(&a.value.node)]),
+        Statement::CompoundAssignment(c) => json!(["Compound", c.name, format!("{:?}", c.op), expr_json(&c.value.node)]),
+        Statement::Return(None) => json!(["Return", Value::Null]),
+        Statement::Return(Some(e)) => json!(["Return", expr_json(&e.node)]),
+        Statement::Pass => json!(["Pass"]),
+        Statement::Break => json!(["Break"]),
+        Statement::Continue => json!(["Continue"]),
+        _ => json!(["Unsupported", "statement"]),
+    }
+}
+
+fn op_tie(src: &str) -> Value {
+    let prog = match parse_src(src) {
+        Ok(p) => p,
+        Err(e) => return json!({"parse": e}),
+    };
+    let body: Vec<Value> = match prog.declarations.first().map(|d| &d.node) {
+        Some(Declaration::Function(f)) => f.body.iter().map(|s| stmt_json(&s.node)).collect(),
+        _ => return json!({"parse": "not a function"}),
+    };
+    let text = fmt_prog(&prog);
+    json!({"parse": "ok", "ast": body, "toks_src": body_tokens(src).unwrap_or_default(),
+           "toks_fmt": body_tokens(&text).map(Value::Array).unwrap_or_else(|e| json!(e)), "text": text})
+}
 
 pub fn run(_args: &[String]) {
-    eprintln!("c08: runner not implemented");
-    std::process::exit(2);
+    each_line(|line| {
+        let req: Value = match serde_json::from_str(line) {
+            Ok(v) => v,
+            Err(e) => return json!({"error": format!("bad request: {}", e)}).to_string(),
+        };
+        let op = req["op"].as_str().unwrap_or("").to_string();
+        let src = req["src"].as_str().unwrap_or("").to_string();
+        let want_text = req["text"].as_bool().unwrap_or(false);
+        let r = catch(|| match op.as_str() {
+            "decls" => op_decls(&src, want_text),
+            "tie" => op_tie(&src),
+            _ => json!({"error": "unknown op"}),
+        });
+        match r {
+            Ok(v) => v.to_string(),
+            Err(p) => json!({"panic": p}).to_string(),
+        }
+    });
 }
